@@ -312,8 +312,10 @@ func (h *c19Hammer) round(round int) {
 	feedDone := make(chan struct{})
 	stopFeed := make(chan struct{})
 	var late []*network.BlockConfirmData
+	var ownEmitted []*network.BlockConfirmData
 	check := func(p *network.BlockConfirmData) {
 		atomic.AddInt64(&emitted, 1)
+		ownEmitted = append(ownEmitted, p)
 		id, err := p.SignInfo.RecoverNodeID(p.Hash)
 		if err != nil || !bytes.Equal(id, selfID) {
 			h.fail(round, "c19/emitted-invalid-confirm", fmt.Sprintf("confirm on the feed for block %d:%x is not a signature of this node over that hash (recover err=%v, signer=%x…)", p.Height, p.Hash[:4], err, firstBytes(id, 4)))
@@ -593,6 +595,40 @@ func (h *c19Hammer) round(round int) {
 			}
 		}
 	}
+
+	// confirm sets (union semantics of every sequential order): a confirm whose InsertConfirms returned nil and
+	// a confirm the node broadcast must be in the stored block (if the block still exists)
+	for _, d := range order {
+		if d.req.kind != "confirm" || !d.ok {
+			continue
+		}
+		sb, err := a.DB.GetBlockByHash(d.req.hash)
+		if err != nil {
+			continue
+		}
+		miner, _ := sb.SignerNodeID()
+		for _, sgd := range d.req.sigs {
+			id, err := sgd.RecoverNodeID(d.req.hash)
+			if err != nil || bytes.Equal(id, miner) {
+				continue
+			}
+			found := false
+			for _, st := range sb.Confirms {
+				if sid, err := st.RecoverNodeID(d.req.hash); err == nil && bytes.Equal(sid, id) {
+					found = true
+				}
+			}
+			if !found {
+				h.fail(round, "c19/confirm-lost/acknowledged-remote-confirm", fmt.Sprintf("InsertConfirms(%s) returned nil, but the stored block %d holds no confirm of signer %x… (stored confirms: %d)", d.req.name, d.req.height, firstBytes(id, 4), len(sb.Confirms)))
+			}
+		}
+	}
+	for _, p := range ownEmitted {
+		if sb, err := a.DB.GetBlockByHash(p.Hash); err == nil && !sb.IsConfirmExist(p.SignInfo) {
+			h.fail(round, "c19/confirm-lost/own-broadcast-confirm", fmt.Sprintf("the node broadcast its own confirm of block %d:%x, but the stored block does not hold it (stored confirms: %d)", p.Height, p.Hash[:4], len(sb.Confirms)))
+		}
+	}
+	h.count("hammer:confirm-sets-checked", 1)
 
 	// ---- sequential replay on a fresh node, in completion order (+ local repairs of the order)
 	try := func(ord []c19Done) (int, c19Final) {
